@@ -57,6 +57,7 @@ impl WorldC {
         s.clock_ms += dt;
         let Some((client, transport)) = s.client.as_mut() else { return };
         client.update(d);
+        let nc_disc_before = transport.disconnect_reason().is_some();
         let r1 = transport.update(d, client);
         let r2 = transport.send_packets(client);
         if let Err(e) = &r1 {
@@ -64,6 +65,22 @@ impl WorldC {
         }
         let _ = r2;
         obs.count("op.tick_client");
+        // C20 on the client: after NetcodeClientTransport::update both layers agree on whether the session has ended
+        if r1.is_ok() || !matches!(r1, Err(renet_netcode::NetcodeTransportError::IO(_))) {
+            obs.count("oracle.C20.client_lockstep");
+            // a message-layer disconnect is pushed down within the same update; a handshake-layer disconnect that existed
+            // before the update is pushed up by it (one decided inside the update is pushed up by the next one)
+            let msg_disc = client.is_disconnected();
+            let nc_disc = transport.disconnect_reason().is_some();
+            if (msg_disc && !nc_disc) || (nc_disc_before && !msg_disc) {
+                obs.violate(
+                    "C20",
+                    "client-layers-disagree-after-update",
+                    if msg_disc { "message-layer-disconnected-netcode-not" } else { "netcode-disconnected-message-layer-not" },
+                    format!("slot {} message layer {:?} netcode {:?}", j, client.disconnect_reason(), transport.disconnect_reason()),
+                );
+            }
+        }
         self.collect_outbox(obs);
         self.observe_client(j, obs);
     }
@@ -328,6 +345,9 @@ impl WorldC {
                     let i = op.c as usize % pool.len();
                     pool.remove(i);
                     obs.count("fault.drop");
+                    if self.slots[j].decided_side.is_some() {
+                        self.slots[j].lost_after_decision[(op.b % 2) as usize] = true;
+                    }
                 }
             }
             K_DELIVERALL => {
@@ -363,20 +383,36 @@ impl WorldC {
                     0 => {
                         if self.server.is_connected(id) {
                             self.slots[j].app_disconnected_server = true;
+                            if self.slots[j].decided_side.is_none() {
+                                self.slots[j].decided_side = Some(1);
+                                let client_connected = self.slots[j].client.as_ref().map(|(c, _)| c.is_connected()).unwrap_or(false);
+                                self.slots[j].decision_clean = self.slots[j].to_client.is_empty() && client_connected;
+                            }
                         }
                         self.server.disconnect(id);
                     }
                     1 => {
+                        let server_had = self.transport.client_addr(id).is_some();
                         let s = &mut self.slots[j];
                         if let Some((c, _)) = s.client.as_mut() {
                             if !c.is_disconnected() {
                                 s.app_disconnected_client = true;
+                                if s.decided_side.is_none() {
+                                    s.decided_side = Some(0);
+                                    s.decision_clean = s.to_server.is_empty() && server_had;
+                                }
                             }
                             c.disconnect();
                         }
                     }
                     2 => {
-                        if let Some((_, t)) = self.slots[j].client.as_mut() {
+                        let server_had = self.transport.client_addr(id).is_some();
+                        let s = &mut self.slots[j];
+                        if let Some((c, t)) = s.client.as_mut() {
+                            if t.disconnect_reason().is_none() && !c.is_disconnected() && s.decided_side.is_none() {
+                                s.decided_side = Some(0);
+                                s.decision_clean = s.to_server.is_empty() && server_had;
+                            }
                             t.disconnect();
                             self.collect_outbox(obs);
                         }
@@ -552,8 +588,31 @@ impl WorldC {
         // heal: clean network. A disconnect decided anywhere ends the session on both sides within timeout + slack;
         // sessions alive on both sides deliver all their reliable traffic.
         let rounds = (self.timeout_s * 1000 + 3000) / 100;
-        for _ in 0..rounds {
+        // socket errors armed in the random phase may have swallowed the single disconnect datagram
+        let sock_faults = self.net.0.borrow().send_err_fired + self.net.0.borrow().recv_err_fired > 0 || self.cfg.get("sockerr") > 0;
+        for r in 0..rounds {
             self.round(100, obs);
+            if r == 9 {
+                // one second of clean network: a disconnect decided by the application on either side has reached the other
+                // side through the disconnect datagram (unless that datagram was lost; then only the timeout is owed)
+                for j in 0..ns {
+                    let s = &self.slots[j];
+                    let Some(side) = s.decided_side else { continue };
+                    if s.tainted || sock_faults || s.lost_after_decision[side] || s.client.is_none() || !s.decision_clean {
+                        continue;
+                    }
+                    obs.count("oracle.C20.disconnect_propagates_promptly");
+                    let id = s.id;
+                    let server_has = self.server.is_connected(id) || self.transport.client_addr(id).is_some();
+                    let client_alive = s.client.as_ref().map(|(c, t)| !c.is_disconnected() || t.disconnect_reason().is_none()).unwrap_or(false);
+                    if side == 0 && server_has && self.timeout_s >= 2 {
+                        obs.violate("C20", "disconnect-not-propagated-to-other-side", "client-decided/server-still-has-session", format!("slot {} id {} after 1 s of clean network", j, id));
+                    }
+                    if side == 1 && client_alive && self.timeout_s >= 2 {
+                        obs.violate("C20", "disconnect-not-propagated-to-other-side", "server-decided/client-still-connected", format!("slot {} id {} after 1 s of clean network", j, id));
+                    }
+                }
+            }
         }
         obs.count_by("fault.socket_error_fired", self.net.0.borrow().send_err_fired + self.net.0.borrow().recv_err_fired);
         for j in 0..ns {
